@@ -35,6 +35,77 @@ static bool weakDom(RealVector const& p, RealVector const& q){
 }
 static bool strictDom(RealVector const& p, RealVector const& q){ return weakDom(p,q) && !weakDom(q,p); }
 
+// ---------------------------------------------------------------- NSGA-III: replica of the floating-point association step
+// (copy of NSGA3Indicator::leastContributors up to `pairing` and of computeNormalizer; its result is an INPUT of the model's
+// niche-selection loop and the real indicator's final choice is compared with the model's, so a divergence of the copy shows up
+// as a mismatch)
+static bool g_aux = false;
+static RealVector nsga3Normalizer(std::vector<RealVector> const& points){
+	double epsilon = 0.00001;
+	std::size_t dimensions = points.front().size();
+	RealMatrix cornerPoints(dimensions, dimensions,0.0);
+	for(std::size_t dim = 0; dim != dimensions; ++dim){
+		KeyValuePair<double,std::size_t> best(std::numeric_limits<double>::max(),0);
+		for(std::size_t i = 0; i != points.size(); ++i){
+			auto const& point = points[i];
+			double dist = epsilon * sum(point) + (1-epsilon) * point[dim];
+			best = std::min(best,makeKeyValuePair(dist,i));
+		}
+		noalias(row(cornerPoints,dim)) = points[best.value];
+	}
+	RealMatrix A = trans((cornerPoints|1)) % (cornerPoints|1);
+	RealVector b = trans((cornerPoints|1)) % blas::repeat(-1.0,dimensions);
+	blas::symm_pos_semi_definite_solver<RealMatrix> solver(A);
+	if(solver.rank() == dimensions){
+		solver.solve(b, blas::left());
+		RealVector w = subrange(b,0,dimensions);
+		if(min(w) >= 0) return blas::repeat(1.0,dimensions)/w;
+	}
+	RealVector nadir = points.front();
+	for(auto& point: points) noalias(nadir) = max(nadir,point);
+	for(std::size_t i = 0; i != nadir.size(); ++i) if(!(nadir(i) > 0)) nadir(i) = 1.0;
+	return nadir;
+}
+// (distance, reference index) per point of archive ++ front
+static std::vector<std::pair<double,std::size_t> > nsga3Assoc(std::vector<RealVector> points, std::vector<RealVector> const& Z){
+	RealVector ideal = points.front();
+	for(auto& point: points) noalias(ideal) = min(ideal,point);
+	for(auto& point: points) noalias(point) = point - ideal;
+	RealVector normalizer = nsga3Normalizer(points);
+	for(auto& point: points) noalias(point) = point/ normalizer;
+	std::vector<std::pair<double,std::size_t> > res(points.size(), std::make_pair(std::numeric_limits<double>::max(), std::size_t(0)));
+	for(std::size_t j = 0; j != points.size(); ++j)
+		for(std::size_t i = 0; i != Z.size(); ++i){
+			double dist = norm_sqr(points[j]) - sqr(inner_prod(Z[i],points[j]));
+			if(dist < res[j].first) res[j] = std::make_pair(dist, i);
+		}
+	return res;
+}
+// aux string "nz k_0 z_0 k_1 z_1 ..." (dense order keys of the distances) for the call the selection makes on `pop`
+static std::string nsga3Aux(std::vector<Ind> const& pop, std::size_t mu, std::vector<RealVector> const& Z){
+	// the partially selected front: fronts are dropped from the worst while popSize - |front| >= mu
+	unsigned maxRank = 0; for(auto const& x: pop) maxRank = std::max(maxRank, x.rank());
+	std::size_t popSize = pop.size(); unsigned R = maxRank;
+	for(;; --R){
+		std::size_t fs = 0; for(auto const& x: pop) if(x.rank() == R) ++fs;
+		if(R == 0 || popSize - fs < mu) break;
+		popSize -= fs;
+	}
+	std::vector<RealVector> pts;
+	for(unsigned r = 1; r < R; ++r) for(auto const& x: pop) if(x.rank() == r) pts.push_back(x.penalizedFitness());
+	for(auto const& x: pop) if(x.rank() == R) pts.push_back(x.penalizedFitness());
+	if(pts.empty()) return "";
+	auto as = nsga3Assoc(pts, Z);
+	std::vector<double> u; for(auto const& a: as) u.push_back(a.first);
+	std::sort(u.begin(), u.end()); u.erase(std::unique(u.begin(), u.end()), u.end());
+	std::string s = std::to_string(Z.size());
+	for(auto const& a: as){
+		if(!(a.first < std::numeric_limits<double>::max())) return "nan";      // NaN / no direction closer than DBL_MAX: outside the model
+		s += " " + std::to_string(std::lower_bound(u.begin(), u.end(), a.first) - u.begin()) + " " + std::to_string(a.second);
+	}
+	return s;
+}
+
 // ---------------------------------------------------------------- independent oracle for the hypervolume indicator's choice
 // exact dominated hypervolume of integer points w.r.t. ref by coordinate compression (points that are not strictly below
 // ref in every objective dominate nothing inside the reference box)
@@ -166,7 +237,8 @@ static void runSelection(Selection& sel, std::vector<Ind>& pop, std::size_t mu, 
 	}
 }
 
-int main(){
+int main(int argc, char** argv){
+	g_aux = argc > 1 && std::string(argv[1]) == "--aux";
 	std::string line;
 	std::vector<long long> a;
 	random::rng_type rng(42);
@@ -177,7 +249,8 @@ int main(){
 		try{
 		// `sel hvr mu m n r(m) pts`: hypervolume indicator with the explicit reference point r (points may lie beyond it)
 		bool hvr = t[0] == "sel" && t.size() >= 5 && t[1] == "hvr";
-		if(t[0] == "sel" && t.size() >= 5 && parseInts(t, 2, a) && a.size() >= 3 && a.size() == 3 + (std::size_t)(a[1]*a[2]) + (hvr ? (std::size_t)a[1] : 0)){
+		std::vector<std::string> tmain(t.begin(), std::find(t.begin(), t.end(), "aux"));
+		if(t[0] == "sel" && t.size() >= 5 && parseInts(tmain, 2, a) && a.size() >= 3 && a.size() == 3 + (std::size_t)(a[1]*a[2]) + (hvr ? (std::size_t)a[1] : 0)){
 			std::string ind = t[1];
 			std::size_t mu = a[0], m = a[1], n = a[2];
 			RealVector given(m, 0.0);
@@ -198,7 +271,20 @@ int main(){
 			else if(ind == "hvnoref"){ IndicatorBasedSelection<HypervolumeIndicator> s; runSelection(s, pop, mu, os, orc, m == 2); checkHvChoice(pop, 1, ref, orc); }
 			else if(ind == "crowd"){ IndicatorBasedSelection<CrowdingDistance> s; runSelection(s, pop, mu, os, orc, true); }
 			else if(ind == "eps"){ IndicatorBasedSelection<AdditiveEpsilonIndicator> s; runSelection(s, pop, mu, os, orc, true); }
-			else if(ind == "nsga3"){ IndicatorBasedSelection<NSGA3Indicator> s; s.indicator().init(m, std::max<std::size_t>(mu, m), rng); runSelection(s, pop, mu, os, orc); }
+			else if(ind == "nsga3"){
+				// reference directions: the unit vectors on the lattice RealCodedNSGAIII would use, set explicitly
+				RealMatrix refs = unitVectorsOnLattice(m, computeOptimalLatticeTicks(m, std::max<std::size_t>(mu, m)));
+				std::vector<RealVector> Z; for(std::size_t i = 0; i != refs.size1(); ++i) Z.push_back(row(refs, i));
+				IndicatorBasedSelection<NSGA3Indicator> s; s.indicator().setReferencePoints(Z);
+				for(auto& z: Z) z /= norm_2(z);                         // what setReferencePoints does
+				std::size_t auxAt = std::find(t.begin(), t.end(), "aux") - t.begin();
+				std::string given; for(std::size_t i = auxAt + 1; i < t.size(); ++i) given += (given.empty() ? "" : " ") + t[i];
+				bool exact = auxAt != t.size() && given != "nan" && !given.empty();
+				runSelection(s, pop, mu, os, orc, exact);
+				std::string aux = nsga3Aux(pop, mu, Z);                 // ranks are those of the real selection (C13)
+				if(g_aux){ std::cout << aux << "\n"; continue; }
+				if(auxAt != t.size() && aux != given) orc += " !oracle aux-mismatch";
+			}
 			else { std::cout << "bad-op\n"; continue; }
 		}else if(t[0] == "elit" && parseInts(t, 1, a) && a.size() >= 2 && a.size() == 2 + (std::size_t)a[1]){
 			typedef Individual<RealVector, double> SInd;
@@ -219,6 +305,7 @@ int main(){
 			os.str(""); os << "exception";
 			orc += std::string(" !oracle exception ") + e.what();
 		}
+		if(g_aux){ std::cout << "\n"; continue; }
 		std::cout << os.str() << orc << "\n";
 	}
 	return 0;
